@@ -36,9 +36,9 @@ theorem C12_simplify_sound_partial (L : ScalarLaws K) (n : Nat) (e : Expr K) (s 
     (hc : CacheSound s.cache) :
     Arm.powZeroBase ∈ (simplify n e s).2.2 ∨
       (CacheSound (simplify n e s).2.1.cache ∧ Refines e (simplify n e s).1) := by
-  rcases simplify_sound' (valueRel L) n e s hc with ⟨a, ha, rfl⟩ | h
+  rcases simplify_sound' (valueRel L) n e trivial s (fun k v h => ⟨trivial, hc k v h⟩) with ⟨a, ha, rfl⟩ | h
   · exact Or.inl ha
-  · exact Or.inr h
+  · exact Or.inr ⟨fun k v hkv => (h.1 k v hkv).2, h.2.1⟩
 
 /- The full statement, which is FALSE of the code (and of the model):
      theorem C12_value_full (L : ScalarLaws K) (amb : List K) (e : Expr K) : Refines e (simplifyTop amb e)
@@ -122,9 +122,9 @@ expression, every state whose memo table has the property. -/
 theorem C12_simplify_leaves (n : Nat) (e : Expr K) (s : St K)
     (hc : ∀ k v, (k, v) ∈ s.cache → SubLeaves k v) :
     (∀ k v, (k, v) ∈ (simplify n e s).2.1.cache → SubLeaves k v) ∧ SubLeaves e (simplify n e s).1 := by
-  rcases simplify_sound' varsRel n e s hc with ⟨_, _, hf⟩ | h
+  rcases simplify_sound' varsRel n e trivial s (fun k v h => ⟨trivial, hc k v h⟩) with ⟨_, _, hf⟩ | h
   · exact absurd hf id
-  · exact h
+  · exact ⟨fun k v hkv => (h.1 k v hkv).2, h.2.1⟩
 
 /-- **C12, structural clauses at the entry point**: for every expression and every set of live numbers, the result
 of `Expression::simplify` mentions only variables and memory references of the input, and it is not the symbolic
@@ -167,6 +167,150 @@ theorem C12_structSpecB_iff (e out : Expr K) : structSpecB e out = true ↔ Stru
     cases out <;> simp_all [isPi]
 
 end structural
+
+/-! ### "No `pi` anywhere in the result" — an additional, PARTIAL result
+
+The property's clause is about the result *being* `pi` (`C12_structural`, all expressions).  The stronger "the result
+*contains* no `pi`" holds exactly up to the depth the recursion limit can reach: -/
+
+section pifree
+variable {K : Type} [SimpScalar K]
+
+private abbrev PSpec (m : M K (Expr K)) : Prop :=
+  Spec (fun _ => False) (CacheOK (piRel (K := K))) m (fun r => piFree r = true)
+
+/-- calls on expressions no deeper than `n` return `pi`-free expressions (and keep all memoised values `pi`-free) -/
+private def DSound (n : Nat) (S : Expr K → M K (Expr K)) : Prop := ∀ e, e.depth ≤ n → PSpec (S e)
+
+private theorem memoD {e : Expr K} {body : M K (Expr K)} (h : PSpec body) : PSpec (memo e body) := by
+  intro s hs
+  unfold memo
+  split
+  · next v hv =>
+    obtain ⟨k, hk, _⟩ := lookup_some hv
+    exact Or.inr ⟨hs, (hs k v hk).1⟩
+  · rcases h s hs with hbad | ⟨hc, hr⟩
+    · exact Or.inl hbad
+    · refine Or.inr ⟨?_, hr⟩
+      intro k v hkv
+      simp only [List.mem_cons] at hkv
+      rcases hkv with hkv | hkv
+      · cases hkv; exact ⟨hr, fun _ => hr⟩
+      · exact hc k v hkv
+
+private theorem numD (v : K) : PSpec (mkNum v) := Spec.mono (Spec.num piRel v) (fun _ h => h rfl)
+
+private theorem step0D (e : Expr K) (hd : e.depth ≤ 0) : PSpec (step0 e) := by
+  unfold step0
+  split
+  · exact Spec.tk _ (numD _)
+  · refine Spec.tk _ (Spec.pure ?_)
+    cases e <;> simp_all [Expr.depth, piFree]
+
+private theorem stepD {T : ArmTable K} (hT : TableSound piRel T) {S0 S1 : Expr K → M K (Expr K)} {n : Nat}
+    (h0 : DSound n S0) (h1 : RecSound piRel S1) (e : Expr K) (hd : e.depth ≤ n + 1) :
+    PSpec (step T S0 S1 e) := by
+  unfold step
+  split
+  · exact Spec.tk _ (numD _)
+  · exact Spec.tk _ (Spec.pure rfl)
+  · exact Spec.tk _ (Spec.pure rfl)
+  · exact Spec.tk _ (Spec.pure rfl)
+  · next f x =>
+    have hx : x.depth ≤ n := by simp [Expr.depth] at hd; omega
+    unfold simplifyCall
+    refine Spec.bind (h0 x hx) (fun x' px => ?_)
+    split
+    · exact Spec.tk _ (numD _)
+    · exact Spec.tk _ (Spec.pure (by simpa [piFree] using px))
+  · next l op r =>
+    have hl : l.depth ≤ n := by simp [Expr.depth] at hd; omega
+    have hr : r.depth ≤ n := by simp [Expr.depth] at hd; omega
+    unfold simplifyInfix
+    refine Spec.bind (h0 l hl) (fun l' pl => ?_)
+    refine Spec.bind (h0 r hr) (fun r' pr => ?_)
+    exact Spec.mono (firstArm_sound piRel (hT S1 h1) l' op r' pl pr)
+      (fun _ h => h (by simp [piFree, pl, pr]))
+  · next op x =>
+    have hx : x.depth ≤ n := by simp [Expr.depth] at hd; omega
+    unfold simplifyPrefix
+    refine Spec.bind (h0 x hx) (fun x' px => ?_)
+    split
+    · exact Spec.tk _ (Spec.pure px)
+    · split
+      · exact Spec.tk _ (numD _)
+      · exact Spec.tk _ (Spec.pure (by simpa [piFree] using px))
+      · exact Spec.tk _ (Spec.pure (by simpa [piFree] using px))
+
+private theorem simplifyD : ∀ n : Nat, DSound (K := K) n (simplify (K := K) n) := by
+  have key : ∀ n : Nat, DSound (K := K) n (simplify (K := K) n) ∧
+      DSound (K := K) (n + 1) (simplify (K := K) (n + 1)) := by
+    intro n
+    induction n with
+    | zero =>
+      have h0 : DSound (K := K) 0 (simplify (K := K) 0) := fun e he => by
+        unfold simplify simplifyWith; exact memoD (step0D e he)
+      refine ⟨h0, fun e he => ?_⟩
+      unfold simplify simplifyWith
+      exact memoD (stepD (arms_sound piRel) h0 (simplify_sound' piRel 0) e he)
+    | succ n ih =>
+      refine ⟨ih.2, fun e he => ?_⟩
+      unfold simplify simplifyWith
+      exact memoD (stepD (arms_sound piRel) ih.2 (simplify_sound' piRel n) e he)
+  exact fun n => (key n).1
+
+/-- **No `pi` anywhere, up to the depth of the limit** (partial: `depth e ≤ LIMIT = 10`).  For every limit `n`,
+every expression no deeper than `n` and every state whose memoised values are `pi`-free (whatever their keys and
+whatever limits they were computed with), the result contains no `pi` and the memoised values stay `pi`-free. -/
+theorem C12_piFree_simplify_partial (n : Nat) (e : Expr K) (s : St K) (hd : e.depth ≤ n)
+    (hc : ∀ k v, (k, v) ∈ s.cache → piFree v = true) :
+    (∀ k v, (k, v) ∈ (simplify n e s).2.1.cache → piFree v = true) ∧ piFree (simplify n e s).1 = true := by
+  rcases simplifyD n e hd s (fun k v h => ⟨hc k v h, fun _ => hc k v h⟩) with ⟨_, _, hf⟩ | h
+  · exact absurd hf id
+  · exact ⟨fun k v hkv => (h.1 k v hkv).1, h.2⟩
+
+/-- … at the entry point: an expression of depth at most 10 simplifies to an expression without `pi`. -/
+theorem C12_piFree_partial (amb : List K) (e : Expr K) (hd : e.depth ≤ LIMIT) :
+    piFree (simplifyTop amb e) = true := by
+  have hrun : ∀ e : Expr K, e.depth ≤ LIMIT → piFree (runWith arms amb e).1 = true := by
+    intro e hd
+    unfold runWith
+    have h := (C12_piFree_simplify_partial LIMIT e { cache := [], pool := numbers e ++ amb } hd
+      (by intro k v hkv; simp at hkv)).2
+    change piFree (simplifyWith arms LIMIT e _).1 = true at h
+    generalize simplifyWith arms LIMIT e { cache := [], pool := numbers e ++ amb } = out at h ⊢
+    obtain ⟨r, s', w⟩ := out
+    cases r <;> first | exact h | rfl
+  unfold simplifyTop simplifyTopWith
+  cases e with
+  | address r => rfl
+  | number z => rfl
+  | var x => rfl
+  | pi => rfl
+  | call f x => exact hrun _ hd
+  | bin l op r => exact hrun _ hd
+  | pre op x => exact hrun _ hd
+
+end pifree
+
+/-- the nine-fold `+(…)` of the repaired defect -/
+def plus9 {K : Type} (e : Expr K) : Expr K :=
+  .pre .plus (.pre .plus (.pre .plus (.pre .plus (.pre .plus (.pre .plus (.pre .plus (.pre .plus (.pre .plus e))))))))
+
+/-- **The depth bound is tight, and this is outside the property's statement**: at depth 11 the limit is exhausted
+inside; `sin(+(+(+(+(+(+(+(+((pi*%x)/%x)))))))))` simplifies to `sin(pi)` — an inner `pi` (value preserved), not a
+`pi` result. -/
+theorem C12_piFree_depth11_counterexample :
+    ∃ e : Expr ℚ, e.depth = 11 ∧ piFree (simplifyTop [] e) = false := by
+  refine ⟨.call .sin (.pre .plus (.pre .plus (.pre .plus (.pre .plus (.pre .plus (.pre .plus (.pre .plus (.pre .plus
+    (.bin (.bin .pi .star (.var "x")) .slash (.var "x")))))))))), by decide, by rfl⟩
+
+/-- the witness of the repaired defect 62718e2: the simplifier proper returns `pi` here (limit exhausted), the
+patched `run` turns it into the number -/
+example : (simplify (K := ℚ) LIMIT (plus9 (.bin (.bin .pi .star (.var "x")) .slash (.var "x")))
+      { cache := [], pool := [] }).1 = .pi ∧
+    simplifyTop (K := ℚ) [] (plus9 (.bin (.bin .pi .star (.var "x")) .slash (.var "x"))) = .number 3 := by
+  constructor <;> rfl
 
 /-- the structural clauses hold in particular for the floating-point model that the driver runs against the code -/
 example (amb : List CFloat) (e : Expr CFloat) : StructSpec e (simplifyTop amb e) := C12_structural amb e
